@@ -30,6 +30,8 @@ def cases(tier):
         for ob in ('wrapped-vector', 'symmetry', 'lattice', 'inv-flag'):
             cs.append({'name': '%s/%s/point' % (box, ob), 'box': box, 'ob': ob, 'arg': 'point'})
     cs.append({'name': 'ortho/wrapped-vector/residues', 'box': 'ortho', 'ob': 'wrapped-vector', 'arg': 'residue'})
+    for box in ('ortho', 'tric'):
+        cs.append({'name': '%s/mutated-box/point' % box, 'box': box, 'ob': 'mutated-box', 'arg': 'point'})
     if tier == 'thorough':
         for box in ('ortho', 'tric'):
             for ob in ('symmetry', 'lattice', 'inv-flag'):
@@ -111,6 +113,19 @@ def run_case(case):
             arg = np.array([SymReal(v) for v in ys[0]], dtype=object)
         else:
             arg = mkres(ys)
+        if ob == 'mutated-box':
+            # history: one call, then the caller rescales the same box array in place (symbolic factor), then the
+            # call under test; everything below is about the second call and the rescaled box
+            rx.distance_to(arg, box_vects=B)
+            sc = z3.Real('scale')
+            ctx.assume(sc > 0)
+            inputs['scale'] = sc
+            for i_ in range(3):
+                for j_ in range(3):
+                    if not isinstance(B[i_, j_], int) or B[i_, j_] != 0:
+                        B[i_, j_] = B[i_, j_] * SymReal(sc)
+            Braw = [[(Braw[i_][j_] * sc if not isinstance(Braw[i_][j_], int) else Braw[i_][j_]) for j_ in range(3)] for i_ in range(3)]
+            out['B'] = Braw
         mark = len(ctx.log)
         out['d'] = rx.distance_to(arg, box_vects=B)
         out['rints'] = [(e, k) for (t, e, k) in [l for l in ctx.log[mark:] if l[0] == 'rint']]
@@ -192,7 +207,7 @@ def run_case(case):
         abs_f = [[(f[j], g[j]) for j in range(3)]]
         abs_fk = [[(f[j], g[j]) for j in range(3)], [(k[j], kr[j]) for j in range(3)]]
         notie = [z3.And(f[i] - k[i] < z3.RealVal('1/2'), f[i] - k[i] > -z3.RealVal('1/2')) for i in range(3)]
-        if ob == 'wrapped-vector':
+        if ob in ('wrapped-vector', 'mutated-box'):
             # (1) fractional coordinates: f.B = separation
             r1 = oblig(ctx, 'f . B = separation', z3.And(*[sum(f[j] * bx(j, i) for j in range(3)) == sep[i] for i in range(3)]),
                        abstract=[[]], drop=('rint!', 'sqrt!'))
@@ -273,31 +288,61 @@ def replay(w):
     else:
         B = np.array([[v['Ba'], 0, 0], [v['Bb'], v['Bc'], 0], [v['Bd'], v['Be'], v['Bf']]])
     mk = lambda P: Residue([AtomGro([1, 'A', 'C%d' % a, a + 1, P[a][0], P[a][1], P[a][2]]) for a in range(len(P))])
-    rx, ry = mk(X), mk(Y)
-    arg = Y[0] if w['arg'] == 'point' else ry
+    # The solver's witness identifies a box (and a pair of points) on which an intermediate identity of the real
+    # code fails; the observable consequences are confirmed on that box with the witness pair and with a fixed set of
+    # probe separations (fractions of the box vectors), all through the public API.
+    probes = [np.zeros(3)] + [np.array(c) @ B for c in ((0.3, 0.0, 0.0), (0.0, 0.7, 0.0), (0.0, 0.0, 0.6), (0.45, 0.45, 0.45), (0.8, 0.2, 0.6),
+                                                        (1.3, -0.4, 0.2), (-0.6, 2.2, 0.9), (0.1, 0.1, 2.6), (2.7, 1.6, -1.4))]
+    shifts = [np.array([v.get('n%d' % i, 1 + i) for i in range(3)], dtype=float), np.array([1., 0, 0]), np.array([0., 1, 0]),
+              np.array([0., 0, 1]), np.array([-2., 1, 3])]
     bad = []
-    with np.errstate(all='ignore'):
-        d = rx.distance_to(arg, box_vects=B.copy())
-        sep = Y.mean(axis=0) - X.mean(axis=0)
-        if not np.isfinite(d):
-            bad.append('non-finite')
-        if w['box'] == 'ortho':
-            k0 = np.round(sep / np.diag(B))
-            best = min(np.linalg.norm(sep - (k0 + np.array(n)) * np.diag(B)) for n in itertools.product((-1, 0, 1), repeat=3))
-            if abs(d - best) > 1e-9 * max(1, best):
-                bad.append('not the minimum-image distance (got %.6g, minimum over images %.6g)' % (d, best))
-        d2 = ry.distance_to(X[0] if w['arg'] == 'point' else rx, box_vects=B.copy())
-        if abs(d - d2) > 1e-9 * max(1, abs(d)):
-            bad.append('not symmetric')
-        n = np.array([v.get('n%d' % i, 1 + i) for i in range(3)], dtype=float)
-        Ys = Y + n @ B
-        d3 = rx.distance_to(Ys[0] if w['arg'] == 'point' else mk(Ys), box_vects=B.copy())
-        frac = np.linalg.solve(B.T, sep)
-        tie = np.any(np.abs(np.abs(frac - np.round(frac)) - 0.5) < 1e-6)
-        if not tie and abs(d - d3) > 1e-8 * max(1, abs(d)):
-            bad.append('changes under a lattice shift')
-        d4 = rx.distance_to(arg, box_vects=np.linalg.inv(B), inv=True)
-        if abs(d - d4) > 1e-9 * max(1, abs(d)):
-            bad.append('inverse flag disagrees')
-    return {'reproduced': bool(bad), 'what': 'distance_to (%s box): %s' % (w['box'], '; '.join(bad)),
+    d = float('nan')
+    mutated = w.get('kind') == 'mutated-box'
+    for pr in probes:
+        Yp = Y + pr
+        rx, ry = mk(X), mk(Yp)
+        arg = Yp[0] if w['arg'] == 'point' else ry
+        with np.errstate(all='ignore'):
+            if mutated:
+                # history: a first call, then the same box array is rescaled in place, then the call under test
+                Bm = B.copy()
+                rx.distance_to(arg, box_vects=Bm)
+                Bm *= v.get('scale', 1.5)
+                d = rx.distance_to(arg, box_vects=Bm)
+                Bq = Bm.copy()
+                Bi = np.linalg.inv(B)
+                rx.distance_to(arg, box_vects=Bi, inv=True)
+                Bi /= v.get('scale', 1.5)
+                d_inv = rx.distance_to(arg, box_vects=Bi, inv=True)
+            else:
+                Bq = B
+                d = rx.distance_to(arg, box_vects=B.copy())
+                d_inv = rx.distance_to(arg, box_vects=np.linalg.inv(B), inv=True)
+            sep = Yp.mean(axis=0) - X.mean(axis=0)
+            if not np.isfinite(d):
+                bad.append('non-finite')
+            if w['box'] == 'ortho':
+                k0 = np.round(sep / np.diag(Bq))
+                best = min(np.linalg.norm(sep - (k0 + np.array(n)) * np.diag(Bq)) for n in itertools.product((-1, 0, 1), repeat=3))
+                if abs(d - best) > 1e-9 * max(1, best):
+                    bad.append('not the minimum-image distance (got %.6g, minimum over images %.6g)' % (d, best))
+            fresh = mk(X).distance_to(arg, box_vects=Bq.copy())
+            if mutated and abs(d - fresh) > 1e-9 * max(1, abs(fresh)):
+                bad.append('value after an in-place change of the box array differs from a fresh evaluation')
+            d2 = ry.distance_to(X[0] if w['arg'] == 'point' else rx, box_vects=Bq.copy())
+            if abs(d - d2) > 1e-9 * max(1, abs(d)):
+                bad.append('not symmetric')
+            frac = np.linalg.solve(Bq.T, sep)
+            tie = np.any(np.abs(np.abs(frac - np.round(frac)) - 0.5) < 1e-6)
+            for n in shifts:
+                Ys = Yp + n @ Bq
+                d3 = rx.distance_to(Ys[0] if w['arg'] == 'point' else mk(Ys), box_vects=Bq.copy())
+                if not tie and abs(d - d3) > 1e-8 * max(1, abs(d)):
+                    bad.append('changes under a lattice shift')
+            if abs(d - d_inv) > 1e-9 * max(1, abs(d)):
+                bad.append('inverse flag disagrees')
+        if bad:
+            break
+    bad = sorted(set(bad))
+    return {'reproduced': bool(bad), 'what': 'distance_to (%s box%s): %s' % (w['box'], ', box array changed in place between calls' if mutated else '', '; '.join(bad)),
             'detail': {'x': X.tolist(), 'y': Y.tolist(), 'box': B.tolist(), 'd': float(d)}}
